@@ -63,7 +63,7 @@ def generate(ctx, jobs):
     for i, (cfg, sim, depth) in enumerate(jobs):
         d = os.path.join(ctx.scratch, "emit-%d" % i)
         if _cache():
-            d = os.path.join(_cache(), "%s-%s-%s" % (ctx.tier, cfg, sim))
+            d = os.path.join(_cache(), "%s-%s-%s-%s" % (ctx.tier, cfg, sim, ctx.seed if sim else 0))
             if os.path.isdir(d) and os.listdir(d):
                 dirs.append(d)
                 continue
